@@ -116,6 +116,7 @@ func checkC09(c *Ctx) {
 	c.rule("C09.R1", "every call to a nondeterminism source in API-reachable module code is entailed by `the enclosing function's seed string parameter is empty`", 1)
 	c.rule("C09.R2", "RNG provenance: the source is rand.New(rand.NewSource(v)) with v depending on the seed; it lives only in the RNG's field; dice/random/random_range are built from the RNG the constructor made from its rngSeed argument and are always the functions registered", 6)
 	c.rule("C09.R3", "every range over a map in the module only stores under the loop key (commutative body): no append, concatenation, break, or value return in iteration order", 5)
+	c.rule("C09.R5", "the checked dice and random_range closures refuse no argument of their domain (sides >= 1; lower <= upper): the conditions of their error returns, evaluated on a box of valid arguments, never hold", 2)
 	c.rule("C09.R4", "ranges: IntBetween returns lower + Intn(upper-lower+1); dice = IntBetween(1, sides); random_range = IntBetween(a, b); random = Float64() unchanged", 4)
 	if !m.ok(c, "C09") {
 		return
@@ -229,6 +230,7 @@ func checkC09(c *Ctx) {
 	c09R3(c)
 	// ----- R4
 	c09R4(c)
+	c09Domain(c)
 }
 
 // astCallAt finds the AST call expression whose Lparen is at pos, and its enclosing function.
